@@ -69,6 +69,39 @@ def self_test(ctx, sub, path, expect_prefixes):
     ctx.extra["selftest_classes"] = sorted(hit)[:6]
 
 
+def scaled_stage(ctx, mode):
+    """The vectors instantiated at sizes TLC cannot enumerate (harness/cmd/codec/scaled.go): the length / count fields
+    of every canonical encoding as Wire!Fields computes them ("M" lines of GenWire_mut), the scale law ThScaleLaw
+    checked by the same TLC run, the scaled encodings judged by the real codecs.  Self-test: with a scale law that is
+    one element short (VERIF_SCALED_SELFTEST) the harness must report failures."""
+    thorough = ctx.tier == "thorough"
+    r = ctx.design_check("GenWire", "GenWire_mut_thorough.cfg" if thorough else "GenWire_mut.cfg",
+                         workers=12 if thorough else 6, timeout=3000 if thorough else 900, count=False)
+    ms = r.printed("M")
+    if len(ms) < 1000 or not any(f.get("fix") for m in ms for f in m.get("flds", [])):
+        raise Infra("scaled: M export too small or without fixed-size fields (%d)" % len(ms))
+    path = ctx.path("scaled-%s.ndjson" % mode)
+    with open(path, "w") as f:
+        for v in ms:
+            f.write(json.dumps({"K": "M", "V": v}) + "\n")
+    st = ctx.harness_json("codec", ["scaled", mode, path], timeout=1800, env={"VERIF_SCALED_SELFTEST": "1", "VERIF_TIER": "quick"})
+    if not st.get("failures"):
+        raise Infra("scaled self-test: a wrong scale law was not noticed")
+    res = ctx.harness_json("codec", ["scaled", mode, path], timeout=3600)
+    if res["evaluations"] < 500:
+        raise Infra("scaled: only %d evaluations" % res["evaluations"])
+    ctx.traces += res["evaluations"]
+    ctx.failures(res["failures"])
+    for s_ in res["samples"][:2]:
+        ctx.sample(s_)
+    ctx.extra["scaled"] = {"evaluations": res["evaluations"], "distinct_scaled_encodings": res["distinct"],
+                           "per_decoder": (res.get("extra") or {}).get("scaled_checks"),
+                           "sizes": "scaled part of 65 537 / 70 001 / 131 073 bytes, 1 MiB + 5 / 2 MiB + 3 for one vector in six "
+                                    "(all in the thorough tier), containers at the documented count cap 4096"}
+    ctx.assumptions += ["scaled vectors: N copies of the FIRST counted element (strings of one repeated byte); maps are scaled "
+                        "for the signature-driven reader only (N equal keys are one entry of a Go map)"]
+
+
 def absorb(ctx, res, n_expected=None):
     ctx.traces += res["evaluations"]
     ctx.failures(res["failures"])
@@ -90,6 +123,7 @@ def run(ctx):
     if res["evaluations"] < 2 * n["V"]:
         raise Infra("harness replayed %d evaluations for %d vectors" % (res["evaluations"], n["V"]))
     absorb(ctx, res)
+    scaled_stage(ctx, "c02")
     ctx.extra.update({"vectors_exported": n["V"], "exhaustive": True,
                       "explanation": "every (type, value) of the bounded universe, as a dynamic value: "
                                      "NewValue accepts, consumes exactly the encoding (with 0, 3 and seed-derived "
